@@ -130,11 +130,30 @@ def apply_transforms(plan, repo, hdir):
 
 
 def check_hooks(plan, repo, harnesses):
-    """every harness file must be mounted by its cfg(kani) hook in the scratch copy"""
+    """every harness file must be mounted by its cfg(kani) hook in the scratch copy; computes the
+    full module path of each harness (for --exact)"""
+    mounts = {}
+    out = subprocess.run(["grep", "-rl", "--include=*.rs", "LIBTW2_VERIF_HARNESS", repo], stdout=subprocess.PIPE).stdout.decode().split()
+    for f in out:
+        src = open(f).read()
+        for m in re.finditer(r'(?:mod (\w+) \{\s*(?:use [^;]*;\s*)*)?include!\(concat!\(env!\("LIBTW2_VERIF_HARNESS"\), "/([\w.]+)"\)\);', src):
+            rel = os.path.relpath(f, repo)
+            parts = rel.split(os.sep)
+            i = parts.index("src")
+            mods = parts[i + 1:]
+            mods[-1] = mods[-1][:-3]
+            if mods[-1] in ("lib", "mod", "main"):
+                mods = mods[:-1]
+            if m.group(1):
+                mods.append(m.group(1))
+            mounts[m.group(2)] = "::".join(mods)
     for h in harnesses:
         info = harness_source_info(h["name"])
         if info["file"] is None:
             raise Inconclusive("harness %s not found in harness/incrate" % h["name"])
+        if info["file"] not in mounts:
+            raise Inconclusive("harness file %s is not mounted by a cfg(kani) hook in the source tree" % info["file"])
+        h["_path"] = (mounts[info["file"]] + "::" if mounts[info["file"]] else "") + h["name"]
 
 
 class Inconclusive(Exception):
@@ -237,7 +256,7 @@ def parse_kani_output(text):
 def run_harness(h, repo, hdir, tdir, logdir, cap_s):
     name = h["name"]
     mem = h.get("mem_gb", 4)
-    cmd = ["cargo", "kani", "-p", h["package"], "--harness", name, "--target-dir", tdir] + KANI_COMMON
+    cmd = ["cargo", "kani", "-p", h["package"], "--harness", h["_path"], "--exact", "--target-dir", tdir] + KANI_COMMON
     cbmc_args = list(h.get("cbmc_args", []))
     for loop, n in h.get("unwindset", {}).items():
         cbmc_args += ["--unwindset", "%s:%d" % (loop, n)]
@@ -341,7 +360,7 @@ def replay_native(h, repo, hdir, tdir, logdir, pid, res):
     hfile = os.path.join(hdir, info["file"])
     before = open(hfile).read()
     cmd = (
-        ["cargo", "kani", "-p", h["package"], "--harness", name, "--target-dir", tdir]
+        ["cargo", "kani", "-p", h["package"], "--harness", h["_path"], "--exact", "--target-dir", tdir]
         + KANI_COMMON
         + ["-Z", "concrete-playback", "--concrete-playback=inplace"]
     )
